@@ -172,6 +172,14 @@ def pair_part(ck):
                         g2.append(len(jobs))
                         jobs.append(dict(conf=dict(kb, **v), seed=1000 + sd, n_total=32))
                     groups.append(g2)
+            # the TYPE in which a one-point likelihood hands back its number is no part of the algorithm either: single-precision numpy
+            # scalars, python floats and a double-precision batch of the same values are the same pointwise likelihood
+            if kern == "tpcn" or ck.tier == "thorough":
+                g4 = []
+                for v in [dict(evaluation="scalar_r32"), dict(evaluation="scalar_f32"), dict(evaluation="vector_r32"), dict(evaluation="scalar_f32", pool="perm", pool_seed=sd)]:
+                    g4.append(len(jobs))
+                    jobs.append(dict(conf=dict(sample=kern, clustering=False, n_particles=8, **v), seed=1000 + sd, n_total=32))
+                groups.append(g4)
         if sd == seeds[0] or ck.tier == "thorough":
             # nothing about the configuration may depend on the pool: the default particle number under a real pool of a size that
             # does not divide it
@@ -182,6 +190,19 @@ def pair_part(ck):
                                  **({"timeout": 240.0} if v else {})))
             groups.append(g3)
     R = pairs.run_many(jobs)
+    # two fits with a real pool of the same size in ONE process, the data the (module-level) likelihood reads rebound in between: the
+    # second fit must be the serial fit of the second data set (workers started for the first fit know nothing of the second)
+    tj = [dict(a=dict(conf=dict(sample="rwm", clustering=False, n_particles=8, evaluation="global", pool=2, shift=0.0), seed=1000 + sd, n_total=16),
+               b=dict(conf=dict(sample="rwm", clustering=False, n_particles=8, evaluation="global", pool=2, shift=3.0, target="edge"), seed=1001 + sd, n_total=16))
+          for sd in (seeds[:1] if ck.tier == "quick" else seeds[:3])]
+    TR = pairs.run_many(tj, func=pairs.run_pair_in_process, timeout=480.0)
+    SR = pairs.run_many([dict(j["b"], conf=dict(j["b"]["conf"], pool=None)) for j in tj])
+    for tr, sr in zip(TR, SR):
+        if "b" not in tr:
+            raise RuntimeError("two-fit worker failed: " + str(tr.get("raised"))[:300])
+        groups.append([len(R), len(R) + 1])
+        R += [sr, tr["b"]]
+        jobs += [sr["job"], tr["b"]["job"]]
     P = []
     meta = []
     discarded = 0
